@@ -281,7 +281,9 @@ func execCopyLogs(c *ctx, line string, f []string) string {
 	sFirst, _ := srcS.FirstIndex()
 	sLast, _ := srcS.LastIndex()
 
-	ctxx, cancel := context.WithCancel(context.Background())
+	// cancelled WITH A CAUSE: ctx.Err() is still context.Canceled, and that is what CopyLogs must return
+	ctxx, cancelCause := context.WithCancelCause(context.Background())
+	cancel := func() { cancelCause(errors.New("operator requested shutdown")) }
 	defer cancel()
 	src := &cancelSrc{LogStore: srcS, cancel: cancel}
 	srcClosed := false
@@ -591,9 +593,17 @@ func execCopyStable(c *ctx, line string, f []string) string {
 		c.stat("stb_nonempty_destination")
 	}
 	c.stat("stb_pair_" + srcKind + dstKind)
-	ctxx, cancel := context.WithCancel(context.Background())
+	ctxx, cancelCause := context.WithCancelCause(context.Background())
+	cancel := func() { cancelCause(errors.New("operator requested shutdown")) }
 	defer cancel()
 	src := &cancelStable{StableStore: srcS, cancel: cancel}
+	// the caller's two key lists are slices of ONE registry with spare capacity (appending to one of
+	// them in place would overwrite the other); they must come back unchanged
+	registry := make([][]byte, 0, len(extra)+len(extraInt)+8)
+	registry = append(registry, extraInt...)
+	registry = append(registry, extra...)
+	extraInt, extra = registry[:len(extraInt)], registry[len(extraInt):len(extraInt)+len(extra)]
+	keysBefore := fmt.Sprintf("%q %q", extraInt, extra)
 	if hasCancel {
 		if cancelK == 0 {
 			cancel()
@@ -609,6 +619,9 @@ func execCopyStable(c *ctx, line string, f []string) string {
 		pch = ch
 	}
 	err = migrate.CopyStable(ctxx, &setStable{dstS}, src, extra, extraInt, pch)
+	if after := fmt.Sprintf("%q %q", extraInt, extra); after != keysBefore {
+		c.witness("C19", "copystable-modifies-key-lists", "CopyStable changed the caller's key lists: "+keysBefore+" -> "+after, line)
+	}
 	res := "ok"
 	switch {
 	case err == nil:
